@@ -2452,8 +2452,19 @@ impl<'a> Model<'a> {
                     worksheet.set_cell_with_number(row, column, v, new_style_index)?;
                     return Ok(());
                 }
-                // We try to parse as boolean
-                if let Ok(v) = value.to_lowercase().parse::<bool>() {
+                // We try to parse as boolean (in English or in the active language,
+                // which is how the content of a boolean cell is shown)
+                let upper_value = value.to_uppercase();
+                let boolean = if let Ok(v) = value.to_lowercase().parse::<bool>() {
+                    Some(v)
+                } else if upper_value == self.language.booleans.r#true.to_uppercase() {
+                    Some(true)
+                } else if upper_value == self.language.booleans.r#false.to_uppercase() {
+                    Some(false)
+                } else {
+                    None
+                };
+                if let Some(v) = boolean {
                     let worksheet = self.workbook.worksheet_mut(sheet)?;
                     worksheet.set_cell_with_boolean(row, column, v, new_style_index)?;
                     return Ok(());
